@@ -712,6 +712,10 @@ def run_job(nd, job, ref):
                         "python_repr": repr(r), "rust_display": rr["repr"]}
             if repr(r) != rr["repr"]:
                 return {"at": i, "what": what + " repr", "python_repr": repr(r), "rust_display": rr["repr"]}
+            # what a user sees through print(), str.format and f-strings without a format spec is the same rendering
+            for how, text in (("str()", str(r)), ("format()", format(r)), ("f-string", f"{r}"), ("str.format", "{}".format(r))):
+                if text != rr["repr"]:
+                    return {"at": i, "what": what + f" text through {how}", "python_text": text, "rust_display": rr["repr"]}
         return None
     # driver job: the program is the body of the callback
     drv = job["driver"]
